@@ -192,7 +192,8 @@ def strat_fpm(tier):
         'which': st.sampled_from(['function', 'wavefront', 'wavefront-maskwf', 'function-maskwf', 'babinet', 'babinet']), 'layout': U.layouts, 'seed': U.seeds,
         'mags': st.tuples(_MAG, _MAG).map(list),
         # a mask given as a Wavefront carries its own spacing; the separate fpm_dx argument may repeat it, be None, or (redundantly) name another value
-        'maskwf_dx': st.sampled_from(['same', 'same', 'none', 'other'])})
+        'maskwf_dx': st.sampled_from(['same', 'same', 'none', 'other']),
+        'bab_wf': st.sampled_from(['none', 'none', 'mask', 'lyot', 'both'])})
 
 
 def check_fpm(case, ctx):
@@ -265,8 +266,16 @@ def check_fpm(case, ctx):
             L = r.uniform(0, 1, shape) * np.exp(2j * np.pi * r.uniform(0, 1, shape))
         ctx.label('lyot:' + case['lyot'])
         ctx.nt(case['lyot'] == 'complex')
-        Ax = ctx.call(P.Wavefront(x, lam, dx).babinet, efl, L, m, fpm_dx).data
-        AHy = ctx.call(P.Wavefront(y.copy(), lam, dx).babinet_backprop, efl, L, m, fpm_dx).data
+        # mask and Lyot stop are documented as "Wavefront or ndarray" (a mask Wavefront carries its own spacing)
+        wf = case.get('bab_wf', 'none')
+        m_arg, d_arg = (P.Wavefront(m, lam, fpm_dx, space='psf'), None) if wf in ('mask', 'both') else (m, fpm_dx)
+        L_arg = P.Wavefront(L, lam, dx) if (wf in ('lyot', 'both') and L is not None) else L
+        if wf != 'none':
+            ctx.label('babinet:wavefront-typed:' + wf)
+        Ax = ctx.call(P.Wavefront(x, lam, dx).babinet, efl, L_arg, m_arg, d_arg).data
+        AHy = ctx.call(P.Wavefront(y.copy(), lam, dx).babinet_backprop, efl, L_arg, m_arg, d_arg).data
+        ctx.require(isinstance(Ax, np.ndarray) and isinstance(AHy, np.ndarray), 'babinet:type', 'babinet / babinet_backprop returned a Wavefront holding %s / %s' % (
+            type(Ax).__name__, type(AHy).__name__))
         adjoint_check(ctx, Ax, x, AHy, y, 'babinet_backprop' + bsuffix + (':complex-lyot' if case['lyot'] == 'complex' else ''), what + ' lyot=' + case['lyot'])
 
 
